@@ -266,6 +266,201 @@ def _cmp_holds(op, label):
     return None
 
 
+RISKY_SIZE_WORDS = ("parse", "from_str", "from_str_radix", "try_from", "try_into", "from", "into", "pow",
+                    "max_value", "unwrap_or_default", "default", "next_power_of_two", "abs_diff", "to_usize",
+                    "to_u64", "to_u32", "mantissa", "scale", "trailing_zeros", "leading_zeros")
+
+
+def _slice_has_int_cast(body, x, limit=200):
+    """an integer-changing cast among the assignments that feed operand x"""
+    work = []
+    if x.get("k") in ("copy", "move"):
+        work.append(x["place"]["l"])
+    seen = set()
+    while work and len(seen) < limit:
+        l = work.pop()
+        if l in seen:
+            continue
+        seen.add(l)
+        for kind, bb, idx, dplace, payload in body.defs().get(l, []):
+            if kind != "assign":
+                continue
+            rv = payload
+            k = rv["k"]
+            if k == "cast":
+                if rv.get("kind", "").startswith(("IntToInt", "FloatToInt", "Transmute", "PointerExposeProvenance")):
+                    return True
+            for o in (rv.get("op"), rv.get("l"), rv.get("r"), rv.get("x")):
+                if isinstance(o, dict) and o.get("k") in ("copy", "move"):
+                    work.append(o["place"]["l"])
+            if "place" in rv:
+                work.append(rv["place"]["l"])
+            for f in rv.get("fields", []):
+                if f["op"].get("k") in ("copy", "move"):
+                    work.append(f["op"]["place"]["l"])
+    return False
+
+
+POSITION_CALLS = ("find", "rfind", "position", "rposition", "find_map", "checked_sub")
+
+
+def _adt_payload_defs(P, adt, variant, field):
+    """[(body, operand)] that every construction of adt::variant stores in `field`"""
+    out = []
+    for b in P.bodies.values():
+        for blk in b.blocks:
+            if blk["cleanup"]:
+                continue
+            for st in blk["stmts"]:
+                if st["k"] == "assign" and st["rv"]["k"] == "aggregate" and st["rv"].get("agg") == "adt":
+                    rv = st["rv"]
+                    if norm(rv["adt"]) == adt and rv["variant"] == variant:
+                        for f in rv["fields"]:
+                            if f["name"] == field:
+                                out.append((b, f["op"]))
+    return out
+
+
+def _local_impls(P, name):
+    """local impl bodies of an unresolved trait method `Trait::m` (class-hierarchy approximation)"""
+    if "::" not in name:
+        return []
+    tr, m = name.rsplit("::", 1)
+    tr = mir.strip_generics(tr)
+    out = []
+    for b in P.bodies.values():
+        if b.impl_trait and not b.is_closure and b.key.rsplit("::", 1)[-1] == m and mir.strip_generics(b.impl_trait) == tr:
+            out.append(b)
+    return out
+
+
+SIZE_TRACE = []
+
+
+def size_like(P, body, x, depth=0, seen=None, suffix=()):
+    r = _size_like(P, body, x, depth, seen, suffix)
+    if not r and len(SIZE_TRACE) < 40:
+        SIZE_TRACE.append("%s: %s %s" % (body.key[-60:], short_operand(body, x), list(suffix)))
+    return r
+
+
+def _size_like(P, body, x, depth=0, seen=None, suffix=()):
+    """operand x (or its projection `suffix`) is a small constant or a size/position of in-memory data: the
+    result of a length-like call (never of parsing, conversion, a cast or a multiplication), or sums of such
+    values (counters, offsets, widths of pieces of one text).  Whole-program and optimistic on cycles: a
+    parameter is size-like when every caller passes a size-like argument, the payload of an enum variant when
+    every construction of that variant stores one, a local function's result when its return value is one."""
+    if seen is None:
+        seen = set()
+    c = _const_int(x)
+    if c is not None:
+        return 0 <= c < 1 << 16
+    if x.get("k") not in ("copy", "move"):
+        return False
+    if _slice_has_int_cast(body, x):
+        return False
+    roots = prov(body, x, suffix=tuple(suffix))
+    if not roots:
+        return False
+
+    def variant_payload(owner_ty, fields):
+        # fields == ('#Variant', 'n'): payload of an enum of the program
+        if len(fields) != 2 or not fields[0].startswith("#"):
+            return False
+        ty = norm(str(owner_ty).lstrip("&").replace("mut ", "").strip())
+        ty = ty.split("<")[0]
+        if P.adt(ty) is None:
+            return False
+        key = ("adt", ty, fields)
+        if key in seen:
+            return True
+        seen.add(key)
+        defs = _adt_payload_defs(P, ty, fields[0][1:], fields[1])
+        if not defs:
+            return False
+        return all(size_like(P, b2, o2, depth + 1, seen) for b2, o2 in defs)
+
+    for r in roots:
+        if "neg" in r.via or "not" in r.via:
+            return False
+        if r.kind == "const":
+            v = const_root_int(r)
+            if v is None or not (0 <= v < 1 << 16):
+                return False
+        elif r.kind == "call":
+            last = str(r.name).rsplit("::", 1)[-1].split("<")[0]
+            if last in RISKY_SIZE_WORDS or last.startswith(("wrapping_", "saturating_", "overflowing_", "unchecked_")):
+                return False
+            if last == "from_residual" and r.fields and r.fields[0] in ("#Ok", "#Some"):
+                continue      # the early-return value of `?` is an Err / None: it has no such payload
+            ct = body.term(r.site)
+            cbs = [P.bodies[norm(r.name)]] if norm(r.name) in P.bodies else _local_impls(P, norm(r.name))
+            if cbs:
+                for cb in cbs:
+                    key = ("ret", cb.key, r.fields, "?" in r.via)
+                    if key in seen:
+                        continue
+                    seen.add(key)
+                    rty = str(cb.local_ty(0))
+                    sfx = tuple(r.fields)
+                    if "?" in r.via or "unwrap" in r.via or "expect" in r.via:
+                        sfx = (("#Some", "0") if "Option<" in rty.split("<")[0] + "<" else ("#Ok", "0")) + sfx
+                    if not size_like(P, cb, {"k": "copy", "place": {"l": 0, "p": []}}, depth + 1, seen, sfx):
+                        return False
+                continue
+            dty = short_ty(body.local_ty(ct["dest"]["l"])) if ct.get("dest") else ""
+            if not r.fields:
+                if dty == "usize":
+                    continue
+                if last in POSITION_CALLS and dty.startswith(("Option<usize>", "std::option::Option<usize>")):
+                    continue
+                return False
+            if r.fields == ("#Some", "0") and last in POSITION_CALLS:
+                continue
+            a0 = ct["args"][0] if ct["args"] else None
+            a0ty = str(body.local_ty(a0["place"]["l"])) if a0 and a0.get("k") in ("copy", "move") else ""
+            if last == "next" and r.fields == ("#Some", "0", "0") and "Enumerate<" in a0ty:
+                continue
+            return False
+        elif r.kind == "op" and r.name in ("Add", "AddWithOverflow") and r.fields in ((), ("0",)):
+            key = (body.key, r.site, r.name)
+            if key in seen:
+                continue
+            seen.add(key)
+            okop = False
+            for st in body.blocks[r.site]["stmts"]:
+                if st["k"] == "assign" and st["rv"]["k"] == "binop" and st["rv"]["op"] == r.name:
+                    if not (size_like(P, body, st["rv"]["l"], depth, seen) and size_like(P, body, st["rv"]["r"], depth, seen)):
+                        return False
+                    okop = True
+            if not okop:
+                return False
+        elif r.kind == "param" and not body.is_closure:
+            idx = int(str(r.name).split(":")[0])
+            if r.fields:
+                if not variant_payload(body.local_ty(idx), tuple(r.fields)):
+                    return False
+                continue
+            key = ("param", body.key, idx)
+            if key in seen:
+                continue
+            seen.add(key)
+            from . import q as _q
+            if _q.value_refs_of(P, body.key) or body.impl_trait:
+                return False
+            cs = _q.callers_of(P, body.key)
+            if not cs:
+                return False
+            for cb, cbb, ct in cs:
+                if len(ct["args"]) != body.argc:
+                    return False
+                if not size_like(P, cb, ct["args"][idx - 1], depth + 1, seen):
+                    return False
+        else:
+            return False
+    return True
+
+
 def try_discharge(P, inst):
     """-> reason string if a structural guard idiom discharges the instance, else None"""
     body, bb = inst.body, inst.bb
@@ -330,6 +525,13 @@ def try_discharge(P, inst):
             if lv and rv and all(v is not None and abs(v) < 1 << 20 for v in lv + rv):
                 if op != "Sub" or min(lv) >= max(rv):
                     return "all reaching operands are small constants %s %s %s" % (sorted(set(lv)), op, sorted(set(rv)))
+        if op == "Add" and t.get("lty", inst.lty if hasattr(inst, "lty") else None) in (None, "usize"):
+            tyl = None
+            for o in (l, r):
+                if o.get("k") in ("copy", "move") and not o["place"]["p"]:
+                    tyl = short_ty(body.local_ty(o["place"]["l"]))
+            if tyl == "usize" and size_like(P, body, l) and size_like(P, body, r):
+                return "sum of size-like values (lengths/positions/counters of in-memory data and small constants; no cast, parse or multiplication feeds it)"
         if op == "Sub":
             # max(a, b) - a  (and max(b, a) - a) cannot underflow
             lroots = prov(body, l)
@@ -383,6 +585,47 @@ def try_discharge(P, inst):
         for rel, lo, ro in relations():
             if same_value(body, lo, idx) and rel == "Lt" and same_value(body, ro, ln):
                 return "index < len tested"
+        return None
+
+    if inst.kind == "index" and len(inst.operands) == 2:
+        # x[..end] / x[start..] / x[a..b] with the bound tested against x.len() on every path
+        recv, rng = inst.operands
+        parts = None
+        if rng.get("k") in ("copy", "move") and not rng["place"]["p"]:
+            dd = mir.single_def(body, rng["place"]["l"])
+            if dd and dd[0] == "assign" and dd[4]["k"] == "aggregate" and dd[4].get("agg") == "adt":
+                nm = norm(dd[4]["adt"]).rsplit("::", 1)[-1].split("<")[0]
+                if nm in ("RangeTo", "RangeFrom"):
+                    parts = [f["op"] for f in dd[4]["fields"]]
+
+        def strip_bytes(roots):
+            return frozenset((r.kind, r.name, r.fields) for r in roots)
+
+        def is_len_of_recv(o):
+            if o.get("k") not in ("copy", "move"):
+                return False
+            d2 = mir.single_def(body, o["place"]["l"])
+            if not d2 or d2[0] != "call":
+                return False
+            ct = d2[4]
+            last = (callee(ct) or "").rsplit("::", 1)[-1]
+            if last != "len" or not ct["args"]:
+                return False
+            ra = strip_bytes(r for r in prov(body, ct["args"][0]))
+            rb = set()
+            for r in prov(body, recv):
+                if r.kind == "call" and str(r.name).endswith(("str::as_bytes", "String::as_bytes", "String::as_str")) and r.site is not None:
+                    rb |= set(prov(body, body.term(r.site)["args"][0]))
+                else:
+                    rb.add(r)
+            return bool(ra) and ra == strip_bytes(rb)
+
+        if parts and len(parts) == 1:
+            for rel, lo, ro in relations():
+                if rel in ("Le", "Lt", "Eq") and same_value(body, lo, parts[0]) and is_len_of_recv(ro):
+                    return "range bound tested <= len of the indexed value on every path"
+                if rel in ("Ge", "Gt", "Eq") and same_value(body, ro, parts[0]) and is_len_of_recv(lo):
+                    return "range bound tested <= len of the indexed value on every path"
         return None
 
     if inst.kind == "div":
